@@ -178,13 +178,15 @@ func TestC03Replay(t *testing.T) {
 }
 
 func c03Configs() []CfgLit {
-	disc := []string{"https://a.b", "https://*.a.b", "https://b.a:*", "http://1.2.3.4", "http://[::1]", "ab://c", c01Scheme64 + "://" + c01Host253 + ".:*"}
+	disc := []string{"https://a.b", "https://*.a.b", "https://b.a:*", "http://1.2.3.4", "http://[::1]", "ab://c", c01Scheme64 + "://" + c01Host253 + ".:*",
+		"http://a.b:8100", "ionic://a.b", "capacitor://a.b:81", "coap+tcp://*.a.b:8", "ab://c:18"}
 	return []CfgLit{
 		{Origins: []string{"*"}, ResponseHeaders: []string{"X-R", "x-q"}, MaxAge: 30, Methods: []string{"PUT"}, RequestHeaders: []string{"X-A"}},
 		{Origins: disc, ResponseHeaders: []string{"X-R", "Content-Type", "x-q"}, MaxAge: -1, Methods: []string{"PUT"}, RequestHeaders: []string{"X-A"}, TolPSL: true},
 		{Origins: disc, Credentialed: true, ResponseHeaders: []string{"X-R"}, MaxAge: 30, Methods: []string{"PUT"}, RequestHeaders: []string{"X-A"}, TolInsecure: true, TolPSL: true},
 		{Origins: disc, PNA: true, ResponseHeaders: []string{"*"}, Methods: []string{"*"}, RequestHeaders: []string{"*"}, TolInsecure: true, TolPSL: true},
 		{Origins: []string{"https://a.b", "*", "https://*.a.b"}, ResponseHeaders: []string{"X-R"}, Methods: []string{"PUT"}, RequestHeaders: []string{"X-A"}},
+		{Origins: append(append([]string{}, richOrigins...), "https://a.b"), Credentialed: true, Methods: richMethods, RequestHeaders: richReqHdrs, ResponseHeaders: richResHdrs, MaxAge: 600, Status: 201, TolInsecure: true, TolPSL: true},
 		{Origins: disc, Credentialed: true, PNANoCORS: true, ResponseHeaders: []string{"X-R"}, MaxAge: 30, Methods: []string{"*"}, RequestHeaders: []string{"*"}, TolInsecure: true, TolPSL: true, Status: 200},
 	}
 }
@@ -246,7 +248,7 @@ func checkC03(c *vlib.Ctx) (string, string) {
 	}
 	allowed := "https://a.b"
 	// (A) origin-focused
-	prefixes := []string{"", "https://", "https://a.b", "https://x.a.b", "https://a.b:", "https://b.a:", "http://[::1]", "http://[", "http://1.2.3.4", "ab://c", "https://[a.b", "https://[x.a.b]"}
+	prefixes := []string{"http://a.b", "http://a.b:810", "https://a.b:810", "ionic://a.b", "capacitor://a.b:8", "capacitor://a.b", "coap+tcp://x.a.b:", "ab://c:1", "https://api-v2.example.co.uk", "https://xn--bcher-kva.example:4915", "app+v1.0://host-1.internal:1000", "chrome-extension://abcdefghijklmnopabcdefghijklmnop", "https://x.host-1.internal", "", "https://", "https://a.b", "https://x.a.b", "https://a.b:", "https://b.a:", "http://[::1]", "http://[", "http://1.2.3.4", "ab://c", "https://[a.b", "https://[x.a.b]"}
 	sigma := []string{"a", "b", "x", ".", ":", "/", "[", "]", "0", "1", "8", "A", "*", "@", "-", " ", "\x00", "\xc3"}
 	n := vlib.Pick(c, 3, 4)
 	w := vlib.NewWords(sigma, n)
